@@ -842,6 +842,9 @@ def seq_eq(a, b):
 
 
 # ----------------------------------------------------------------------------- maps with symbolic integer keys
+_K = z3.Int('k!map')
+
+
 class SMap:
     """dict with integer keys: has(k)->Bool term, get(k)->value.  Mutable (set/delete in place)."""
     __slots__ = ('_has', '_get', 'elem')
@@ -850,13 +853,31 @@ class SMap:
         self._has, self._get, self.elem = has, get, elem
 
     @staticmethod
-    def fresh(name, elem='int'):
+    def fresh(name, elem='int', inp=True, lo=None, hi=None):
+        """lo, hi (both given, lo = 0): every value lies in 0..hi-1.  Encoded without a quantifier: the value at k is raw[k] mod hi, which
+        ranges over exactly the maps with values in range as raw ranges over all arrays"""
         st = cur()
         dom = z3.Array(st.fresh_name(name + '_dom'), z3.IntSort(), z3.BoolSort())
         val = z3.Array(st.fresh_name(name + '_val'), z3.IntSort(), z3.IntSort())
-        m = SMap(lambda k: dom[zint(k)], lambda k: _elem(val[zint(k)], elem), elem)
-        st.note_input_map(name, m, dom, val)
+        if lo is not None or hi is not None:
+            assert lo == 0 and hi is not None and elem == 'int'
+            m = SMap(lambda k: dom[zint(k)], lambda k: mk(val[zint(k)] % hi), elem)
+        else:
+            m = SMap(lambda k: dom[zint(k)], lambda k: _elem(val[zint(k)], elem), elem)
+        if inp:
+            st.note_input_map(name, m, dom, val if hi is None else z3.Lambda([_K], val[_K] % hi))
         return m
+
+    def set_range(self, address, values):
+        """in place: cells address .. address+len(values)-1 := values (the effect of a block write)"""
+        oh, og, a, vs = self._has, self._get, zint(address), to_seq(values)
+        n = zint(vs.length())
+        inside = lambda k: z3.And(zint(k) >= a, zint(k) < a + n)
+        self._has = lambda k: z3.If(inside(k), z3.BoolVal(True), zbool(oh(k)))
+        if self.elem == 'bool':
+            self._get = lambda k: mk(z3.If(inside(k), zbool(vs.at(mk(zint(k) - a))), zbool(og(k))))
+        else:
+            self._get = lambda k: mk(z3.If(inside(k), zint(vs.at(mk(zint(k) - a))), zint(og(k))))
 
     def has(self, k):
         return mk(self._has(k))
